@@ -5,6 +5,7 @@ package main
 import (
 	"fmt"
 	"go/types"
+	"sort"
 	"strings"
 
 	"golang.org/x/tools/go/ssa"
@@ -146,72 +147,7 @@ func runC16(r *Report, tier string) {
 	}
 
 	// R16.2
-	nsd := 0
-	for _, fn := range P.implementors(P.iface("DigestSigner"), "SignDigest") {
-		// ES* signers: those that reach the encode helper or handle an ecdsa key
-		rt := deref(fn.Signature.Recv().Type())
-		st, _ := rt.Underlying().(*types.Struct)
-		isEC := false
-		if st != nil {
-			for i := 0; i < st.NumFields(); i++ {
-				if strings.Contains(st.Field(i).Type().String(), "crypto/ecdsa.") {
-					isEC = true
-				}
-			}
-		}
-		if !isEC {
-			continue
-		}
-		nsd++
-		for _, x := range P.factsOf(fn).exits {
-			if x.kind == exitFailure {
-				continue
-			}
-			o := r.ob("R16.2", shortFn(fn)+":exit:"+exitID(P, fn, x), fn, x.ret, "success is the encode helper's pair for the key's curve and (r, s) in order")
-			c := delegCall(x.results[1])
-			if !x.delegated || c == nil || c.S != shortFn(enc) || !pairDelegated(x.results[0], x.results[1]) {
-				o.fail("a success exit returns " + truncate(x.results[0].String(), 160) + " instead of the encode helper's result")
-				continue
-			}
-			if len(c.Args) != len(enc.Params) {
-				o.fail("the encode helper is called with an unexpected argument list: " + truncate(c.String(), 160))
-				continue
-			}
-			curveOK := strings.HasPrefix(c.Args[curveI].String(), "**$0.") && strings.HasSuffix(c.Args[curveI].String(), ".Curve")
-			rT, sT := c.Args[rI], c.Args[sI]
-			order := ""
-			switch {
-			case rT.Op == "res" && sT.Op == "res" && rT.Args[0].eq(sT.Args[0]) && rT.Args[0].Op == "call" && rT.Args[0].S == "crypto/ecdsa.Sign":
-				if !(rT.S == "0" && sT.S == "1") {
-					order = "r and s are results " + rT.S + " and " + sT.S + " of ecdsa.Sign"
-				}
-				// key and digest
-				k := rT.Args[0].Args
-				if !(k[0].String() == "$1" && strings.HasPrefix(k[1].String(), "*$0.") && k[2].String() == "$2") {
-					order = "ecdsa.Sign is not called with (rand, own key, digest): " + rT.Args[0].String()
-				}
-			case rT.Op == "field" && sT.Op == "field" && rT.Args[0].eq(sT.Args[0]) && rT.Args[0].Op == "mod" && rT.Args[0].Args[0].Op == "call" && rT.Args[0].Args[0].S == "encoding/asn1.Unmarshal":
-				// field order in the decoded struct
-				um := rT.Args[0].Args[0]
-				ty := strings.TrimPrefix(um.Args[1].S, "*struct{")
-				first := strings.Fields(ty)
-				if len(first) == 0 || first[0] != rT.S || !strings.Contains(ty, "; "+sT.S+" ") {
-					order = "ASN.1 SEQUENCE {r, s} is decoded into struct " + um.Args[1].S + " but r is taken from field " + rT.S + " and s from " + sT.S
-				}
-				src := um.Args[0]
-				if !(src.Op == "res" && src.S == "0" && src.Args[0].Op == "call" && src.Args[0].S == "invoke:crypto.Signer.Sign" && src.Args[0].Args[1].String() == "$1" && src.Args[0].Args[2].String() == "$2") {
-					order = "the ASN.1 bytes are not the crypto.Signer's output for (rand, digest): " + truncate(src.String(), 160)
-				}
-				if !exitFacts(P, x).has(okFact(&Term{Op: "res", S: "1", Args: []*Term{um}})) {
-					order = "asn1.Unmarshal's error is not checked"
-				}
-			default:
-				order = "r, s are " + truncate(rT.String(), 100) + ", " + truncate(sT.String(), 100)
-			}
-			o.check(curveOK && order == "", "encode(own curve, r, s)", fmt.Sprintf("curve is the key's own: %v (%s); %s", curveOK, c.Args[0], order))
-		}
-	}
-	r.floor("R16.2", nsd, 2, "built-in ES* SignDigest methods")
+	checkECDSASignDigestPaths(r, "R16.2")
 	// the curve the signers size their output by is the caller's key's: the
 	// constructor stores the key it was given (its reported public half)
 	{
@@ -233,6 +169,44 @@ func runC16(r *Report, tier string) {
 	}
 
 	checkECDSAStrictDecode(r, "R16.3")
+
+	// "rejected with a verification error": the verification path has no
+	// instruction that can fault on a signature of any length or content
+	r.rule("R06.1", "(shared with C06) panic-site audit of every function reachable from the built-in ES* Verify / VerifyDigest: indexing, re-slicing, bare type assertions and interface comparisons are guarded.")
+	var roots []*ssa.Function
+	for _, m := range []struct{ iface, name string }{{"Verifier", "Verify"}, {"DigestVerifier", "VerifyDigest"}} {
+		for _, fn := range P.implementors(P.iface(m.iface), m.name) {
+			if st, ok := deref(fn.Signature.Recv().Type()).Underlying().(*types.Struct); ok {
+				for i := 0; i < st.NumFields(); i++ {
+					if strings.Contains(st.Field(i).Type().String(), "crypto/ecdsa.") {
+						roots = append(roots, fn)
+					}
+				}
+			}
+		}
+	}
+	roots = uniqFuncs(roots)
+	r.floor("R06.1", len(roots), 2, "built-in ES* verification methods")
+	scope := P.reachable(roots)
+	A := &audit{r: r, P: P, scope: scope, loops: map[*ssa.Function][]*loopInfo{}}
+	var fns []*ssa.Function
+	for f := range scope {
+		fns = append(fns, f)
+	}
+	sort.Slice(fns, func(i, j int) bool { return fns[i].String() < fns[j].String() })
+	r.analysed(fns...)
+	ord := map[string]int{}
+	mkKey := func(fn *ssa.Function, kind, what string) string {
+		k := shortFn(fn) + ":" + kind + ":" + what
+		ord[k]++
+		if ord[k] > 1 {
+			return fmt.Sprintf("%s#%d", k, ord[k])
+		}
+		return k
+	}
+	counts := map[string]int{}
+	A.auditPanicSites("R06.1", fns, mkKey, counts)
+	r.floorSoft("R06.1", counts["slice"], 2, "re-slice expressions on the ECDSA verification path")
 }
 
 // checkECDSAStrictDecode: R16.3 (also part of C03: any change of the signature bytes must change (r, s) or be refused).
@@ -352,4 +326,79 @@ func mutC16() []mutant {
 		{Name: "verifier decodes for a fixed curve", File: "ecdsa.go", Rule: "R16.3",
 			Old: "\tr, s, err := decodeECDSASignature(ev.key.Curve, signature)", New: "\tr, s, err := decodeECDSASignature(elliptic.P256(), signature)"},
 	}
+}
+
+// checkECDSASignDigestPaths (R16.2; shared with C17: a digest handed to
+// SignDigest reaches the key unchanged, so signatures made from a digest and
+// from the message verify alike).
+func checkECDSASignDigestPaths(r *Report, rule string) {
+	P := r.P
+	enc, _ := P.ecdsaHelpers()
+	curveI, rI, sI := encRoles(enc)
+	nsd := 0
+	for _, fn := range P.implementors(P.iface("DigestSigner"), "SignDigest") {
+		// ES* signers: those that reach the encode helper or handle an ecdsa key
+		rt := deref(fn.Signature.Recv().Type())
+		st, _ := rt.Underlying().(*types.Struct)
+		isEC := false
+		if st != nil {
+			for i := 0; i < st.NumFields(); i++ {
+				if strings.Contains(st.Field(i).Type().String(), "crypto/ecdsa.") {
+					isEC = true
+				}
+			}
+		}
+		if !isEC {
+			continue
+		}
+		nsd++
+		for _, x := range P.factsOf(fn).exits {
+			if x.kind == exitFailure {
+				continue
+			}
+			o := r.ob(rule, shortFn(fn)+":exit:"+exitID(P, fn, x), fn, x.ret, "success is the encode helper's pair for the key's curve and (r, s) in order")
+			c := delegCall(x.results[1])
+			if !x.delegated || c == nil || c.S != shortFn(enc) || !pairDelegated(x.results[0], x.results[1]) {
+				o.fail("a success exit returns " + truncate(x.results[0].String(), 160) + " instead of the encode helper's result")
+				continue
+			}
+			if len(c.Args) != len(enc.Params) {
+				o.fail("the encode helper is called with an unexpected argument list: " + truncate(c.String(), 160))
+				continue
+			}
+			curveOK := strings.HasPrefix(c.Args[curveI].String(), "**$0.") && strings.HasSuffix(c.Args[curveI].String(), ".Curve")
+			rT, sT := c.Args[rI], c.Args[sI]
+			order := ""
+			switch {
+			case rT.Op == "res" && sT.Op == "res" && rT.Args[0].eq(sT.Args[0]) && rT.Args[0].Op == "call" && rT.Args[0].S == "crypto/ecdsa.Sign":
+				if !(rT.S == "0" && sT.S == "1") {
+					order = "r and s are results " + rT.S + " and " + sT.S + " of ecdsa.Sign"
+				}
+				// key and digest
+				k := rT.Args[0].Args
+				if !(k[0].String() == "$1" && strings.HasPrefix(k[1].String(), "*$0.") && k[2].String() == "$2") {
+					order = "ecdsa.Sign is not called with (rand, own key, digest): " + rT.Args[0].String()
+				}
+			case rT.Op == "field" && sT.Op == "field" && rT.Args[0].eq(sT.Args[0]) && rT.Args[0].Op == "mod" && rT.Args[0].Args[0].Op == "call" && rT.Args[0].Args[0].S == "encoding/asn1.Unmarshal":
+				// field order in the decoded struct
+				um := rT.Args[0].Args[0]
+				ty := strings.TrimPrefix(um.Args[1].S, "*struct{")
+				first := strings.Fields(ty)
+				if len(first) == 0 || first[0] != rT.S || !strings.Contains(ty, "; "+sT.S+" ") {
+					order = "ASN.1 SEQUENCE {r, s} is decoded into struct " + um.Args[1].S + " but r is taken from field " + rT.S + " and s from " + sT.S
+				}
+				src := um.Args[0]
+				if !(src.Op == "res" && src.S == "0" && src.Args[0].Op == "call" && src.Args[0].S == "invoke:crypto.Signer.Sign" && src.Args[0].Args[1].String() == "$1" && src.Args[0].Args[2].String() == "$2") {
+					order = "the ASN.1 bytes are not the crypto.Signer's output for (rand, digest): " + truncate(src.String(), 160)
+				}
+				if !exitFacts(P, x).has(okFact(&Term{Op: "res", S: "1", Args: []*Term{um}})) {
+					order = "asn1.Unmarshal's error is not checked"
+				}
+			default:
+				order = "r, s are " + truncate(rT.String(), 100) + ", " + truncate(sT.String(), 100)
+			}
+			o.check(curveOK && order == "", "encode(own curve, r, s)", fmt.Sprintf("curve is the key's own: %v (%s); %s", curveOK, c.Args[0], order))
+		}
+	}
+	r.floor(rule, nsd, 2, "built-in ES* SignDigest methods")
 }
